@@ -342,6 +342,7 @@ func (w *world) faultTrial(n int) {
 	identical := w.semanticallyIdentical(st)
 	_, verr := backup.VerifyPublishedArchive(w.ctx, st, w.id)
 	r.Logf("fault %d: %s %s %s %s -> verify=%s identical=%v", n, class, op, strings.TrimPrefix(key, w.root), detail, errClass(verr), identical)
+	r.State(class, op, errClass(verr), identical)
 	if identical {
 		r.Probe("fault_left_archive_identical")
 		if verr != nil {
